@@ -8,7 +8,7 @@ CONSTANTS MsgId,      \* catalog id of the message type
           RawLen, RawAlphabet, Arbitrary
 
 MT == TypeOf(MsgId)
-GenLen == MinSize(MT) + 2 * Align(MT) + 1
+GenLen == RoomyMin(MT) + 2 * Align(MT) + 1
 \* message contents: spread over the tree universe of a generous slice
 Conts == LET tv == TV(MT, GenLen)  n == Len(tv)  m == MinI(n, 5)
              idx(j) == IF m = 1 THEN 1 ELSE 1 + ((j - 1) * (n - 1)) \div (m - 1)
